@@ -9,12 +9,13 @@
 (*   SIM : SimSpec          -- random deeper trees (depth <= 4)            *)
 (***************************************************************************)
 EXTENDS QueryUniv, Json
-CONSTANTS Shard, NShards, Div, WrapSel       \* WrapSel: 0 = every wrapper (incl. none), else ONE wrapper per triple chosen by (indices + WrapSel)
+CONSTANTS Shard, NShards, Div, NWrap, WrapSel       \* WrapSel: rotation (seed)
 VARIABLE c
 \* Div: 1 = every (outer, position, inner) triple; d > 1 = the 1/d sample of the triples chosen by WrapSel
 
-WrapIdx(o, p, i) == IF WrapSel = 0 THEN 1 .. Len(Wrappers)
-                    ELSE {1 + ((o * 7 + p * 3 + i + WrapSel) % Len(Wrappers))}
+\* NWrap: wrappers per triple (0 = all of them), chosen by rotation from WrapSel
+WrapIdx(o, p, i) == IF NWrap = 0 THEN 1 .. Len(Wrappers)
+                    ELSE {1 + ((o * 7 + p * 3 + i + WrapSel + k * 3) % Len(Wrappers)) : k \in 0 .. (NWrap - 1)}
 Init == c \in {[o |-> o, p |-> p, i |-> i, w |-> w] :
                  o \in {x \in 1 .. Len(Outers) : x % NShards = Shard}, p \in 1 .. 5, i \in 1 .. Len(InnerNames), w \in 1 .. Len(Wrappers)}
         /\ c.p <= Outers[c.o].k /\ c.w \in WrapIdx(c.o, c.p, c.i)
